@@ -457,5 +457,30 @@ func RunStoreRace(r *simcore.Run) {
 				c.id, live, disk)
 		}
 	}
+	// Not judged (C20 speaks of what changes the graph and of what is relayed
+	// on receipt, not of what a later gossip query serves): is the channel
+	// cache behind ChanUpdatesInHorizon coherent too?
+	horizon := func(st *graphdb.KVStore) string {
+		var out []string
+		for e, err := range st.ChanUpdatesInHorizon(ctx, lnwire.GossipVersion1, graphdb.ChanUpdateRange{}) {
+			if err != nil {
+				return "error: " + err.Error()
+			}
+			t1, t2 := int64(0), int64(0)
+			if e.Policy1 != nil {
+				t1 = e.Policy1.LastUpdate.Unix()
+			}
+			if e.Policy2 != nil {
+				t2 = e.Policy2.LastUpdate.Unix()
+			}
+			out = append(out, fmt.Sprintf("%d:%d/%d", e.Info.ChannelID, t1, t2))
+		}
+		sort.Strings(out)
+		return strings.Join(out, " ")
+	}
+	if l, d := horizon(store), horizon(fresh); l != d {
+		r.Count("probe_race_channel_cache_differs_from_disk")
+		r.Logf("    note: ChanUpdatesInHorizon from the live store [%s] differs from a fresh store [%s]", l, d)
+	}
 	r.Nontrivial = r.Stats["race_schedule_choices"] > 0
 }
